@@ -6,23 +6,25 @@
    the driver (vh sem, event "wire") turns into a real message:
      name   0 root, 1 existing name, 2 missing name, 3 127 labels / 255 bytes, 4 three 63-byte labels, 5 label with NUL,
             6 label containing a dot, 7 non-ASCII label, 8 upper case, 9 delegation, 10 below the delegation,
-            11 outside every zone, 12 literal "*" label, 13 zone apex, 14 name with > 2000 bytes of TXT (truncation)
+            11 outside every zone, 12 literal "*" label, 13 zone apex, 14 name with > 2000 bytes of TXT (truncation),
+            15 name with about 1100 bytes of TXT (replies close to the buffer sizes swept below)
      opts   0 none, 1 unknown option 65001, 2 cookie, 3 two ECS options, 4 ECS family 0, 5 ECS family 3, 6 ECS IPv4 source
             length 33 with 5 address bytes, 7 ECS address shorter than the source length, 8 ECS address longer than it,
-            9 ECS with a non-zero scope, 10 NSID, 11 padding, 12 unknown option + valid ECS, 13 ECS IPv6 source length 129
+            9 ECS with a non-zero scope, 10 NSID, 11 padding, 12 unknown option + valid ECS, 13 ECS IPv6 source length 129,
+            14 one valid IPv4 /24 ECS, 15 one valid IPv6 /128 ECS
    Contract (Verdict):
      no panic; if something was written: it packs, carries the query's id and (first) question, has QR set, and is
      no longer than the advertised size (512 without EDNS) unless TC is set; an EDNS version other than 0 gets
      BADVERS; options the server does not know leave rcode and sections as they are without them.                *)
 EXTENDS Integers, Sequences, FiniteSets, TLC, Json
 
-Names == 0..14
+Names == 0..15
 Types == {0, 1, 2, 6, 16, 28, 41, 43, 251, 252, 255, 65535}
 Classes == {1, 3, 254, 255, 0}
 Opcodes == {0, 1, 2, 4, 5}
 Ednss == {-1, 0, 1, 255}            \* -1: no OPT record
 Sizes == {0, 100, 512, 1232, 4096, 65535}
-Optss == 0..13
+Optss == 0..15
 Flagss == 0..7                      \* bit 0 RD, bit 1 CD, bit 2 AD;  8 = QR set in the query, 9 = TC + AA set
 UnknownOnly == {1, 2, 10, 11, 12}   \* option lists that differ from their base only by options the server does not know
 
@@ -32,6 +34,8 @@ Space ==
   {D(n, t, c, 0, e, 4096, 0, 1) : n \in Names, t \in Types, c \in Classes, e \in {-1, 0}}
   \cup {D(n, t, 1, o, e, s, op, f) : n \in {0, 1, 9, 11, 14}, t \in {1, 16, 43, 255}, o \in Opcodes, e \in Ednss, s \in {512, 4096}, op \in {0, 1, 3}, f \in {0, 8, 9}}
   \cup {D(n, t, 1, 0, e, s, op, f) : n \in {1, 2, 13, 14}, t \in {1, 16}, e \in {0, 1}, s \in Sizes, op \in Optss, f \in {0, 7}}
+  \* every buffer size around the size of a reply: something added after the size check pushes the reply over the limit
+  \cup {D(15, 16, 1, 0, 0, s, op, 0) : s \in 1000..1300, op \in {0, 14, 15}}
 
 VARIABLE q
 Init == q \in Space
@@ -50,6 +54,7 @@ Verdict(d, o) ==
   ELSE IF ~o.qr THEN "qr-not-set"
   ELSE IF ~o.q_ok THEN "question-changed"
   ELSE IF o.size > Limit(d) /\ ~o.tc THEN "too-big-not-truncated"
+  ELSE IF o.size > Limit(d) THEN "truncated-reply-exceeds-buffer"
   ELSE IF d.edns > 0 /\ o.rcode # 16 THEN "badvers-expected"
   ELSE IF d.opts \in UnknownOnly /\ ~o.base_same THEN "unknown-option-changed-answer"
   ELSE "ok"
